@@ -80,11 +80,11 @@ Print Assumptions C11_stop_leaves_nothing.
 (* ---- several hosts over one network, with pair creation (Qasm/TeardownX.v, Qasm/TeardownNet.v) --------------------------------
    nst = one Model-V network + one NetQASM host per node + the per-socket deques of delivered, unclaimed halves.
    Actions: AInstr i q (any instruction / init / stop of host i), ACreate (create-and-keep of one pair towards another
-   node: EprGate.cmd_epr_keep + delivery to the peer's deque + mapping of the kept half), ARecv (poll: a delivered half is
-   entered into qubitList and mapped).  `cleans` excludes exactly: a pair creation refused AFTER a temporary exists (the
-   known defect C11:epr-temporaries, C11_stop_restores_refuted_failed_pair in Properties/C08.v), binding a half to a
-   virtual address that is not free, and initialising an application id that still has a unit module. *)
-From SQ Require Import Net.Handles Qasm.EprGate Qasm.TeardownX Qasm.TeardownNet Qasm.TeardownNetExamples.
+   node: EprGate.cmd_epr_keep + delivery to the peer's deque + mapping of the kept half; a creation that fails after a
+   temporary qubit exists removes its temporaries again -- the repair of the former finding C11:epr-temporaries -- and is an
+   ordinary action), ARecv (poll: a delivered half is entered into qubitList and mapped).  `cleans` excludes exactly: binding
+   a half to a virtual address that is not free, and initialising an application id that still has a unit module. *)
+From SQ Require Import Net.Handles Qasm.EprGate Qasm.PerNodeNum Qasm.TeardownX Qasm.TeardownNet Qasm.TeardownNetExamples.
 
 (* the one-host invariant is the special case "no unclaimed halves" of the generalised one *)
 Theorem C11_tinv_is_tinvx : forall i s, tinv i s -> tinvx i [] s.
@@ -180,16 +180,90 @@ Theorem C11_unclaimed_half_stays :
 Proof. exact unclaimed_half_stays. Qed.
 Print Assumptions C11_unclaimed_half_stays.
 
-(* what `clean` excludes is the known defect: the creation refused by a full receiver is not clean *)
-Theorem C11_failed_creation_is_not_clean :
-  ~ clean (nrun (ninit [(4, 5); (0, 5)]) [AInstr 0 (QInitApp 0 2)]) (ACreate 0 0 0 [0; 1] 1 true 0).
-Proof. exact failed_creation_is_not_clean. Qed.
-Print Assumptions C11_failed_creation_is_not_clean.
+(* a pair creation that fails AFTER a temporary qubit exists (second cmd_new refused / receiver full) used to be excluded here
+   (the former finding C11:epr-temporaries); since the repair fixes/D16ii-epr-temporaries.diff it is an ordinary clean action:
+   the witness of the former finding, and the variant with room for one more qubit only, are clean histories in which the
+   request answers an error, every node's (held, simulated, registers, register counter) and the creator's host are exactly
+   what they were before the request (the creator holds another qubit before and after), and the stop leaves nothing *)
+Theorem C11_failed_creation_is_clean :
+  cleans (ninit caps_full) (before_full ++ [create_full] ++ after_full) /\
+  fails_after_temporary 0 (mkQ (n_net (nrun (ninit caps_full) before_full)) (host_at (nrun (ninit caps_full) before_full) 0))
+    [0; 1] 1 true (fresh_id (h_used (host_at (nrun (ninit caps_full) before_full) 0))) [true; false] /\
+  nrun_res (ninit caps_full) (before_full ++ [create_full] ++ after_full) = [RDone None; RDone None; RErr; RDone None] /\
+  populations (nrun (ninit caps_full) before_full) = [(1, 1, 1, 1); (0, 0, 0, 0)] /\
+  populations (nrun (ninit caps_full) (before_full ++ [create_full])) = [(1, 1, 1, 1); (0, 0, 0, 0)] /\
+  n_hosts (nrun (ninit caps_full) (before_full ++ [create_full])) = n_hosts (nrun (ninit caps_full) before_full) /\
+  populations (nrun (ninit caps_full) (before_full ++ [create_full] ++ after_full)) = [(0, 0, 0, 0); (0, 0, 0, 0)].
+Proof. exact failed_creation_is_clean. Qed.
+Print Assumptions C11_failed_creation_is_clean.
+
+Theorem C11_failed_second_creation_is_clean :
+  cleans (ninit caps_tight) (before_full ++ [create_tight] ++ after_full) /\
+  fails_after_temporary 0 (mkQ (n_net (nrun (ninit caps_tight) before_full)) (host_at (nrun (ninit caps_tight) before_full) 0))
+    [0; 1] 1 true (fresh_id (h_used (host_at (nrun (ninit caps_tight) before_full) 0))) [true] /\
+  nrun_res (ninit caps_tight) (before_full ++ [create_tight] ++ after_full) = [RDone None; RDone None; RErr; RDone None] /\
+  populations (nrun (ninit caps_tight) (before_full ++ [create_tight])) = populations (nrun (ninit caps_tight) before_full) /\
+  n_hosts (nrun (ninit caps_tight) (before_full ++ [create_tight])) = n_hosts (nrun (ninit caps_tight) before_full) /\
+  populations (nrun (ninit caps_tight) (before_full ++ [create_tight] ++ after_full)) = [(0, 0, 0, 0); (0, 0, 0, 0)].
+Proof. exact failed_second_creation_is_clean. Qed.
+Print Assumptions C11_failed_second_creation_is_clean.
+
+(* THE POSITIVE STATEMENT the former finding refuted, for every state the invariant describes (hence after every clean history:
+   C11_net_invariant_reachable) and every request: a pair creation that does not succeed -- refused by the three checks, by the
+   creator's own node at the first or second cmd_new, or by the receiving node at the hand-over -- answers an error and leaves
+   every host's bookkeeping (unit modules, used physical ids, qubitList, active applications), the receive deques, and for EVERY
+   node the list of qubits it holds (the records themselves, in order), the list of qubits it simulates, its registers and its
+   register count exactly as they were (the only things that moved are two counters that are never re-used: the handle counter
+   and the creator node's register-number counter; Qasm/EprFailNode.v follows the seven native calls) *)
+Theorem C11_failed_creation_restores : forall s i app a known r adj rsock coins,
+  ninv s -> i < length (n_hosts s) ->
+  snd (nstep_r s (ACreate i app a known r adj rsock coins)) <> RDone None ->
+  let s' := nstep s (ACreate i app a known r adj rsock coins) in
+  snd (nstep_r s (ACreate i app a known r adj rsock coins)) = RErr /\
+  n_hosts s' = n_hosts s /\ n_pend s' = n_pend s /\
+  forall j, virt (nth_node (n_net s') j) = virt (nth_node (n_net s) j) /\
+            sims (nth_node (n_net s') j) = sims (nth_node (n_net s) j) /\
+            regs (nth_node (n_net s') j) = regs (nth_node (n_net s) j) /\
+            numRegs (nth_node (n_net s') j) = numRegs (nth_node (n_net s) j) /\
+            held (n_net s') j = held (n_net s) j.
+Proof. exact failed_creation_restores. Qed.
+Print Assumptions C11_failed_creation_restores.
+
+(* the Model-V core of it: a qubit created at node i and measured out again, or two qubits created, entangled (H, CNOT) and
+   measured out again, leave the network exactly as it was, except that the handle counter advanced by 1 (2) and node i's
+   register-number counter by 1 (2) -- for every network state satisfying the invariant, every node, every coin *)
+From SQ Require Import Net.InvStep Qasm.EprFailNode.
+Theorem C11_one_temporary_restored : forall i s v c,
+  ginv s -> snd (step s (ONew i)) = Ok v ->
+  run s [ONew i; OMeas (next_hid s) false c] = mkNet (upd (nodes s) i (bump (nth_node s i) 1)) (S (next_hid s)).
+Proof. exact one_temp_restored. Qed.
+Print Assumptions C11_one_temporary_restored.
+
+Theorem C11_two_temporaries_restored : forall i s v1 v2 c1 c2,
+  ginv s -> snd (step s (ONew i)) = Ok v1 -> snd (step (fst (step s (ONew i))) (ONew i)) = Ok v2 ->
+  let a1 := next_hid s in let a2 := S (next_hid s) in
+  run s [ONew i; ONew i; OGate1 a1 NH; OGate2 a1 a2 NCnot; OMeas a1 false c1; OMeas a2 false c2] =
+  mkNet (upd (nodes s) i (bump (nth_node s i) 2)) (S (S (next_hid s))).
+Proof. exact two_temps_restored. Qed.
+Print Assumptions C11_two_temporaries_restored.
+
+(* the same for one host at the level of cmd_epr: the creator's host is unchanged, its invariant holds over the new network *)
+Theorem C11_failed_creation_leaves_creator : forall i ex s known r adj coins,
+  tinvx i ex s ->
+  let c := cmd_epr_keep i s known r adj (fresh_id (h_used (q_host s))) coins in
+  snd (fst c) <> RDone None ->
+  snd (fst c) = RErr /\ q_host (fst (fst c)) = q_host s /\ tinvx i ex (fst (fst c)) /\
+  forall j, virt (nth_node (q_net (fst (fst c))) j) = virt (nth_node (q_net s) j) /\
+            sims (nth_node (q_net (fst (fst c))) j) = sims (nth_node (q_net s) j) /\
+            regs (nth_node (q_net (fst (fst c))) j) = regs (nth_node (q_net s) j) /\
+            numRegs (nth_node (q_net (fst (fst c))) j) = numRegs (nth_node (q_net s) j) /\
+            held (q_net (fst (fst c))) j = held (q_net s) j.
+Proof. exact failed_creation_leaves_creator. Qed.
+Print Assumptions C11_failed_creation_leaves_creator.
 
 (* a receive-deque entry stores the virtual NUMBER of the delivered half (as the code does); the lookup by number at poll time
    (remote_get_virtual_ref: first virtual qubit of the node with that number) returns the very qubit that was delivered,
    which the node still holds and no qubitList of its host refers to *)
-From SQ Require Import Qasm.PerNodeNum.
 Theorem C11_pending_lookup_faithful : forall caps xs,
   let s := nrun (ninit caps) xs in
   cleans (ninit caps) xs ->
